@@ -63,6 +63,15 @@ const CONTRACT_CODE: &[u8] = &[0x41, 0x31, 0x50, 0x60, 0x01, 0x60, 0x00, 0x55, 0
 pub fn spec_by_name(n: &str) -> Option<SpecId> {
     crate::act::all_specs().into_iter().find(|s| format!("{:?}", s) == n)
 }
+/// SpecIds that exist only in the optimism build
+const OPT_ONLY_SPECS: &[&str] = &["BEDROCK", "REGOLITH", "CANYON", "ECOTONE", "FJORD", "GRANITE", "HOLOCENE", "ISTHMUS"];
+/// a case tagged `default` may only name what exists in the default build (it runs unchanged on both binaries)
+fn spec_in(opt_case: bool, n: &str) -> Option<SpecId> {
+    if !opt_case && OPT_ONLY_SPECS.contains(&n) {
+        return None;
+    }
+    spec_by_name(n)
+}
 
 fn make_db(cb0: U256) -> InMemoryDB {
     let mut db = InMemoryDB::default();
@@ -132,8 +141,11 @@ fn build_evm(flavor: &str, spec: SpecId, reward: bool, cb0: U256) -> Option<E> {
 }
 
 /// one reconfiguration on one EVM; `Err` = not an operation
-fn apply(mut evm: E, t: &[&str]) -> Result<(E, Option<bool>), E> {
-    let spec_arg = |i: usize| t.get(i).and_then(|s| spec_by_name(s));
+fn apply(mut evm: E, t: &[&str], opt_case: bool) -> Result<(E, Option<bool>), E> {
+    let spec_arg = |i: usize| t.get(i).and_then(|s| spec_in(opt_case, s));
+    if !opt_case && (t[0] == "boptimism" || ((t[0] == "app" || t[0] == "bapp") && t.len() == 2 && t[1].starts_with("opt"))) {
+        return Err(evm);
+    }
     match (t[0], t.len()) {
         ("spec", 2) => {
             let Some(s) = spec_arg(1) else { return Err(evm) };
@@ -221,7 +233,7 @@ impl TxReq {
     }
 }
 
-fn set_env(evm: &mut E, r: &TxReq) {
+fn set_env(evm: &mut E, r: &TxReq, _opt_case: bool) {
     let env = evm.context.evm.env.as_mut();
     env.block.basefee = U256::from(r.basefee);
     env.block.coinbase = r.coinbase();
@@ -235,7 +247,7 @@ fn set_env(evm: &mut E, r: &TxReq) {
     env.tx.nonce = None;
     #[cfg(feature = "optimism")]
     {
-        env.tx.optimism.enveloped_tx = Some(Bytes::from_static(ENVELOPE));
+        env.tx.optimism.enveloped_tx = if _opt_case { Some(Bytes::from_static(ENVELOPE)) } else { None };
         env.tx.optimism.source_hash = None;
         env.tx.optimism.mint = None;
     }
@@ -267,8 +279,8 @@ struct Ran {
     digest: String,
 }
 
-fn run_one(evm: &mut E, r: &TxReq) -> Ran {
-    set_env(evm, r);
+fn run_one(evm: &mut E, r: &TxReq, opt_case: bool) -> Ran {
+    set_env(evm, r, opt_case);
     match evm.transact() {
         Err(e) => {
             let n = format!("err:{}", err_name(&e));
@@ -308,7 +320,7 @@ fn run_one(evm: &mut E, r: &TxReq) -> Ran {
     }
 }
 
-pub fn parse_tx(t: &[&str]) -> Option<(TxReq, u64, Option<u128>)> {
+pub fn parse_tx(t: &[&str], opt_case: bool) -> Option<(TxReq, u64, Option<u128>)> {
     if t.len() != 8 || !["xfer", "tocb", "self", "call"].contains(&t[0]) {
         return None;
     }
@@ -317,7 +329,7 @@ pub fn parse_tx(t: &[&str]) -> Option<(TxReq, u64, Option<u128>)> {
     let l1 = if t[7] == "-" { None } else { Some(u128::from_str_radix(t[7], 16).ok()?) };
     let r = TxReq { kind: t[0].to_string(), gas_limit: h(t[1])?, gas_price: h(t[2])?, prio, basefee: h(t[4])?, value: h(t[5])? };
     let used = h(t[6])?;
-    if used > r.gas_limit || r.gas_limit < 21000 || l1.is_some() != OPT_BUILD {
+    if used > r.gas_limit || r.gas_limit < 21000 || l1.is_some() != opt_case {
         return None;
     }
     Some((r, used, l1))
@@ -328,6 +340,8 @@ pub struct Case {
     evm: Option<E>,
     twin: Option<E>,
     dead: bool,
+    /// the case is tagged `optimism` (may use what only the optimism build has)
+    opt_case: bool,
 }
 
 fn state_line(e: &E, t: &E) -> String {
@@ -343,10 +357,18 @@ fn state_line(e: &E, t: &E) -> String {
 
 impl Case {
     pub fn begin(t: &[&str]) -> (Option<Case>, String) {
-        if t.len() != 5 || t[0] != build_name() {
+        if t.len() != 5 || !(t[0] == "default" || t[0] == "optimism") {
             return (None, "bad-op".into());
         }
-        let (Some(spec), Ok(cb0)) = (spec_by_name(t[2]), U256::from_str_radix(t[4], 16)) else {
+        let opt_case = t[0] == "optimism";
+        if opt_case && !OPT_BUILD {
+            // cannot be executed by this binary; ./check never sends such a line to the default build
+            return (None, "wrong-build".into());
+        }
+        if !opt_case && t[1] != "mainnet" {
+            return (None, "bad-op".into());
+        }
+        let (Some(spec), Ok(cb0)) = (spec_in(opt_case, t[2]), U256::from_str_radix(t[4], 16)) else {
             return (None, "bad-op".into());
         };
         let rw = match t[3] {
@@ -358,7 +380,7 @@ impl Case {
             return (None, "bad-op".into());
         };
         let line = state_line(&e, &tw);
-        (Some(Case { evm: Some(e), twin: Some(tw), dead: false }), line)
+        (Some(Case { evm: Some(e), twin: Some(tw), dead: false, opt_case }), line)
     }
 
     pub fn exec(&mut self, t: &[&str]) -> String {
@@ -369,13 +391,13 @@ impl Case {
             return "bad-op".into();
         }
         if t[0] == "tx" {
-            let Some((r, _used, _l1)) = parse_tx(&t[1..]) else { return "bad-op".into() };
-            let a = run_one(self.evm.as_mut().unwrap(), &r);
-            let b = run_one(self.twin.as_mut().unwrap(), &r);
+            let Some((r, _used, _l1)) = parse_tx(&t[1..], self.opt_case) else { return "bad-op".into() };
+            let a = run_one(self.evm.as_mut().unwrap(), &r, self.opt_case);
+            let b = run_one(self.twin.as_mut().unwrap(), &r, self.opt_case);
             return format!("{}{} twin: {} same={}", a.fee, a.other, b.fee, b01(a.digest == b.digest));
         }
         let evm = self.evm.take().unwrap();
-        let (evm, popped) = match apply(evm, t) {
+        let (evm, popped) = match apply(evm, t, self.opt_case) {
             Ok(x) => x,
             Err(evm) => {
                 self.evm = Some(evm);
@@ -383,7 +405,7 @@ impl Case {
             }
         };
         let twin = self.twin.take().unwrap();
-        let (twin, _) = match apply(twin, t) {
+        let (twin, _) = match apply(twin, t, self.opt_case) {
             Ok(x) => x,
             Err(tw) => (tw, None),
         };
@@ -401,7 +423,7 @@ impl Case {
 /// gas used by the transaction on a freshly built default EVM of that spec (mainnet handles)
 pub fn oracle_used(spec: SpecId, r: &TxReq, cb0: U256) -> u64 {
     let mut evm: E = Evm::builder().with_db(make_db(cb0)).with_external_context(NoOpInspector).with_spec_id(spec).build();
-    set_env(&mut evm, r);
+    set_env(&mut evm, r, false);
     match evm.transact() {
         Ok(rs) => rs.result.gas_used(),
         Err(_) => 21000,
@@ -434,7 +456,7 @@ fn cb0_choice(rng: &mut Rng) -> U256 {
     }
 }
 
-fn gen_tx(rng: &mut Rng, spec: SpecId, cb0: U256, malformed: bool) -> String {
+fn gen_tx(rng: &mut Rng, spec: SpecId, cb0: U256, malformed: bool, opt_case: bool) -> String {
     let kind = *rng.pick(&["xfer", "xfer", "tocb", "self", "call", "call"]);
     let basefee = match rng.below(6) { 0 => 1, 1 => 7, _ => rng.range(1, 5000) };
     let tip = match rng.below(6) { 0 => 1, _ => rng.range(1, 5000) };
@@ -458,7 +480,7 @@ fn gen_tx(rng: &mut Rng, spec: SpecId, cb0: U256, malformed: bool) -> String {
     let value = *rng.pick(&[0u64, 1, 12345, 1_000_000_007]);
     let r = TxReq { kind: kind.to_string(), gas_limit, gas_price, prio, basefee, value };
     let used = oracle_used(spec, &r, cb0);
-    let l1 = oracle_l1(spec);
+    let l1 = if opt_case { oracle_l1(spec) } else { None };
     format!(
         "hcfg tx {} {:x} {:x} {} {:x} {:x} {:x} {}",
         kind,
@@ -474,12 +496,16 @@ fn gen_tx(rng: &mut Rng, spec: SpecId, cb0: U256, malformed: bool) -> String {
 
 /// stream: 0 = the theorem's alphabet (neutral registers, no reset), 1 = anything, 2 = malformed
 fn gen_case(rng: &mut Rng, stream: u8, max_ops: u64, out: &mut Vec<String>) {
-    let specs = crate::act::all_specs();
+    // the optimism binary also runs cases tagged `default` (only what the default build has): the same
+    // request lines give the same replies on both binaries
+    let opt_case = OPT_BUILD && rng.chance(17, 20);
+    let specs: Vec<SpecId> =
+        crate::act::all_specs().into_iter().filter(|s| opt_case || !OPT_ONLY_SPECS.contains(&format!("{:?}", s).as_str())).collect();
     let mut spec = *rng.pick(&specs);
-    let flavor = if OPT_BUILD && rng.chance(7, 10) { "optimism" } else { "mainnet" };
+    let flavor = if opt_case && rng.chance(7, 10) { "optimism" } else { "mainnet" };
     let rw = rng.chance(1, 4);
     let cb0 = cb0_choice(rng);
-    out.push(format!("begin hcfg {} {} {:?} {} {:x}", build_name(), flavor, spec, b01(rw), cb0));
+    out.push(format!("begin hcfg {} {} {:?} {} {:x}", if opt_case { "optimism" } else { "default" }, flavor, spec, b01(rw), cb0));
     let nops = rng.range(1, max_ops);
     for i in 0..nops {
         let last = i + 1 == nops;
@@ -496,8 +522,8 @@ fn gen_case(rng: &mut Rng, stream: u8, max_ops: u64, out: &mut Vec<String>) {
             28..=47 => {
                 let op = if rng.chance(2, 3) { "app" } else { "bapp" };
                 let reg = if stream == 0 || rng.chance(7, 10) {
-                    if OPT_BUILD && rng.chance(1, 5) { "opt0" } else { *rng.pick(NEUTRAL) }
-                } else if OPT_BUILD {
+                    if opt_case && rng.chance(1, 5) { "opt0" } else { *rng.pick(NEUTRAL) }
+                } else if opt_case {
                     *rng.pick(&["setm", "clr", "opt1", "opt0"])
                 } else {
                     *rng.pick(&["setm", "clr"])
@@ -512,17 +538,17 @@ fn gen_case(rng: &mut Rng, stream: u8, max_ops: u64, out: &mut Vec<String>) {
             67..=69 => format!("hcfg gendrop {:?}", rng.pick(&specs)),
             70..=73 => "hcfg rebuild".to_string(),
             74..=79 if stream != 0 => {
-                let ops: &[&str] = if OPT_BUILD { &["reset", "new", "resetdb", "boptimism"] } else { &["reset", "new", "resetdb"] };
+                let ops: &[&str] = if opt_case { &["reset", "new", "resetdb", "boptimism"] } else { &["reset", "new", "resetdb"] };
                 format!("hcfg {}", rng.pick(ops))
             }
             80..=84 if stream == 2 => match rng.below(5) {
                 0 => "hcfg spec ATLANTIS".to_string(),
                 1 => "hcfg app turbo".to_string(),
-                2 => if OPT_BUILD { "hcfg tx xfer 5208 a 1 - 0 0 -".to_string() } else { "hcfg app opt1".to_string() },
+                2 => if opt_case { "hcfg tx xfer 5208 a 1 - 0 0 -".to_string() } else { "hcfg app opt1".to_string() },
                 3 => "hcfg pop twice".to_string(),
-                _ => gen_tx(rng, spec, cb0, true),
+                _ => gen_tx(rng, spec, cb0, true, opt_case),
             },
-            _ => gen_tx(rng, spec, cb0, false),
+            _ => gen_tx(rng, spec, cb0, false, opt_case),
         };
         out.push(line);
     }
@@ -554,14 +580,14 @@ pub fn gen(seed: u64, n: usize) -> Vec<String> {
             let cb0 = U256::from(7);
             v.push(format!("begin hcfg {} {} {:?} 0 7", build_name(), fl, s));
             let mut cur = *s;
-            v.push(gen_tx(&mut rng, cur, cb0, false));
+            v.push(gen_tx(&mut rng, cur, cb0, false, OPT_BUILD));
             for o in ops.iter() {
                 v.push(o.to_string());
                 let t: Vec<&str> = o.split(' ').collect();
                 if (t[1] == "spec" || t[1] == "bspec" || t[1] == "generic") && t.len() == 3 {
                     cur = spec_by_name(t[2]).unwrap();
                 }
-                v.push(gen_tx(&mut rng, cur, cb0, false));
+                v.push(gen_tx(&mut rng, cur, cb0, false, OPT_BUILD));
             }
         }
     }
